@@ -684,7 +684,12 @@ func c15PartialOversize(t *testing.T, c *ev.Collector) {
 	for _, p := range AllProtos {
 		for _, kind := range []Kind{KServer, KBidi, KUnary, KClient} {
 			for _, dl := range []bool{false, true} {
-				for _, arrived := range []int{5, 55} {
+				// arrived 5 / 55: part of an over-limit message; -1: one complete, acceptable message and
+				// then silence (the calls with a single response are then waiting for the end of the stream)
+				for _, arrived := range []int{5, 55, -1} {
+					if arrived == -1 && kind.ServerStreams() {
+						continue
+					}
 					idx++
 					if !ev.Mine(idx) {
 						continue
@@ -695,9 +700,16 @@ func c15PartialOversize(t *testing.T, c *ev.Collector) {
 						h := http.HandlerFunc(func(w http.ResponseWriter, r *http.Request) {
 							w.Header().Set("Content-Type", contentType(p, kind, false))
 							w.WriteHeader(200)
-							body := refwire.Envelope(0, bytes.Repeat([]byte{'x'}, 100))[:arrived]
-							if p == PConnect && kind == KUnary {
+							var body []byte
+							switch {
+							case arrived == -1 && p == PConnect && kind == KUnary:
+								body = codecMarshal(false, &BV{Value: []byte("ok")}) // the message itself, body not finished
+							case arrived == -1:
+								body = refwire.Envelope(0, codecMarshal(false, &BV{Value: []byte("ok")}))
+							case p == PConnect && kind == KUnary:
 								body = bytes.Repeat([]byte{'x'}, arrived+5) // the body is the message: more than the limit, and not finished
+							default:
+								body = refwire.Envelope(0, bytes.Repeat([]byte{'x'}, 100))[:arrived]
 							}
 							_, _ = w.Write(body)
 							w.(http.Flusher).Flush()
@@ -760,6 +772,9 @@ func c15PartialOversize(t *testing.T, c *ev.Collector) {
 						c.AddStates(4)
 						c.AddTraces(1)
 						tags := []string{"proto=" + p.String(), "kind=" + kind.String(), "oversize-partly-arrived"}
+						if arrived == -1 {
+							tags[2] = "waiting-for-end-of-stream"
+						}
 						select {
 						case <-done:
 						default:
